@@ -73,6 +73,9 @@ class _Return(BaseException):
 
 
 def num(x):
+    if isinstance(x, dict) and x.get('$') == 'frac':
+        import fractions
+        return fractions.Fraction(x['n'], x['d'])
     return INF if x == 'inf' else x
 
 
@@ -541,14 +544,14 @@ class Interp:
         """async for over interval(period); i-th body run is bodies[i]; leave after n ticks.
         pre: create the iterator first and keep it in a variable, then wait `pre`, then iterate"""
         if pre:
-            it = interval(period)
+            it = interval(num(period))
             await (time + pre)
             self.ctx.rec('iter-begin', act, pc, None)
             return await self._ticks(act, pc, it, n, bodies)
         self.ctx.rec('iter-begin', act, pc, None)
         # (no variable refers to the iterator: it is finalised as soon as this frame is left, however that happens)
         count = 0
-        async for now in interval(period):
+        async for now in interval(num(period)):
             self.ctx.rec('tick', act, pc, now)
             body = bodies[count] if count < len(bodies) else []
             count += 1
@@ -559,13 +562,13 @@ class Interp:
 
     async def op_DELAYLOOP(self, act, pc, period, n, bodies, pre=None):
         if pre:
-            it = delay(period)
+            it = delay(num(period))
             await (time + pre)
             self.ctx.rec('iter-begin', act, pc, None)
             return await self._ticks(act, pc, it, n, bodies)
         self.ctx.rec('iter-begin', act, pc, None)
         count = 0
-        async for now in delay(period):
+        async for now in delay(num(period)):
             self.ctx.rec('tick', act, pc, now)
             body = bodies[count] if count < len(bodies) else []
             count += 1
